@@ -165,7 +165,7 @@ Proof.
 Qed.
 
 (* no panic, whatever max_iter *)
-Lemma newton_basin_total n x0 : Rabs (x0 - r) <= rho ->
+Lemma newton_basin_total_lemma n x0 : Rabs (x0 - r) <= rho ->
   exists res evs, newton_scalar NRl (mkCfg tl dl n x0) F = Ok (res, evs).
 Proof.
   intros H0. unfold newton_scalar. cbn [tol delta max_iter guess].
@@ -188,7 +188,7 @@ Proof.
     apply Rmult_le_compat_l; [apply pow_le; exact qrate_nonneg|exact H1].
 Qed.
 
-Lemma newton_basin_iterates k x0 xk : Rabs (x0 - r) <= rho ->
+Lemma newton_basin_iterates_lemma k x0 xk : Rabs (x0 - r) <= rho ->
   niter (scalar_step NRl tl dl F) k x0 = Ok xk -> Rabs (xk - r) <= qrate ^ k * Rabs (x0 - r).
 Proof.
   revert x0. induction k as [|k IH]; intros x0 H0 H; cbn [niter] in H.
@@ -201,13 +201,13 @@ Proof.
 Qed.
 
 (* enough passes => Ok, with the distance bound *)
-Lemma newton_basin_ok N n x0 : Rabs (x0 - r) <= rho ->
+Lemma newton_basin_ok_lemma N n x0 : Rabs (x0 - r) <= rho ->
   Mb / m * (qrate ^ N * rho) <= tl -> (N < n)%nat ->
   exists x evs, newton_scalar NRl (mkCfg tl dl n x0) F = Ok (NOk x, evs) /\
     Rabs (x - r) <= rho /\
     Rabs (x - r) <= L / m * (Mb / m * tl * (Mb / m * tl + Rabs dl)).
 Proof.
-  intros H0 HN Hn. destruct (newton_basin_total n x0 H0) as (res & evs & H).
+  intros H0 HN Hn. destruct (newton_basin_total_lemma n x0 H0) as (res & evs & H).
   pose proof H as H'. unfold newton_scalar in H'. cbn [tol delta max_iter guess] in H'.
   apply nloop_spec in H' as [(es & x' & -> & Rn & _)|(k & es & xk & x' & e & -> & Hk & Rn & P & _)].
   - exfalso. destruct (run_prefix _ _ _ _ _ N Rn Hn) as (xj & x1 & e1 & Rj & Pj).
@@ -226,7 +226,7 @@ Proof.
 Qed.
 
 (* such an N exists as soon as tol > 0 *)
-Lemma basin_N_exists : 0 < tl -> exists N : nat, Mb / m * (qrate ^ N * rho) <= tl.
+Lemma basin_N_exists_lemma : 0 < tl -> exists N : nat, Mb / m * (qrate ^ N * rho) <= tl.
 Proof.
   intros Ht. pose proof ratio_pos as Hrp. pose proof qrate_nonneg as Hq0.
   destruct (Req_dec rho 0) as [->|Nr].
